@@ -89,12 +89,25 @@ pub fn to_lossy_bytes(input: &str) -> Cow<[u8]> {
     // all utf-8 characters are no longer than 4 bytes.
     let mut buf = [0; 4];
 
+    // was the previous character an unescaped control character (^)?
+    let mut after_control = false;
+
     'outer: for c in input.chars() {
         // all codepages share ascii values
         if c.is_ascii() {
+            // ^8 puts the receiver back into the default codepage, so we must follow it
+            if after_control && c.propagate_lfs_codepage() {
+                current_control = DEFAULT_CODEPAGE;
+                current_encoding = current_control
+                    .as_lfs_codepage()
+                    .unwrap_or_else(|| unreachable!());
+            }
+            after_control = !after_control && c.is_lfs_control_char();
+
             output.push(c as u8);
             continue;
         }
+        after_control = false;
 
         buf.fill(0);
         let char_as_bytes = c.encode_utf8(&mut buf);
